@@ -15,7 +15,7 @@ func init() {
 		Explanation: "Decided: the writer lock is taken once per write transaction (only in beginRWTx, held exactly on its success return) and released on every non-panicking exit of Commit / Rollback / rollback; managed transactions (Update, View) are rolled back on error and on panic and are lock-balanced; " +
 			"the lock acquisition order over {rwlock, metalock, mmaplock, statlock, batchMu} is acyclic and consistent with rwlock < metalock < mmaplock < statlock; the shared fields DB.rwtx, DB.stats.*, DB.batch, DB.opened/freelist/file/path are written only under their lock / by their owner; " +
 			"a transaction id is incremented exactly once, privately (C01.R7b); after the meta write Commit cannot fail and runs the commit handlers only after the locks were released. " +
-			"NOT decided: race freedom in general (only the listed fields, only lock-set reasoning), serial equivalence of read-modify-write, lost wake-ups of the batch timer, panicking exits of unmanaged transactions.",
+			"NOT decided: race freedom in general (only the listed fields, only lock-set reasoning), serial equivalence of read-modify-write, lost wake-ups of the batch timer, panicking exits of unmanaged transactions. Round 3/4: the database's own file handle is closed only by (*DB).close (flow-sensitive through locals and deferred closures).",
 		Run: func(c *Ctx) {
 			ruleDataFileClosedOnlyByClose(c, "C03.R12") // a committed-looking database that cannot write any more: the writer handle is closed only by Close
 			c03R1(c, "C03.R1")
